@@ -618,34 +618,18 @@ impl SimWorker {
     }
 
     /// One iteration of `retract_check_process`.
+    /// One round of the real `retract_check_process`: the production future is created and
+    /// polled once; the first tick of its interval fires at once, the body runs, and the future
+    /// is dropped while it waits for the next tick.
     pub fn retract_check(&self) {
-        let mut state = self.state_ref.get_mut();
-        if !state.prefilled_tasks.is_empty()
-            && let Some(remaining_time) = state.remaining_time()
-        {
-            let mut to_remove = Vec::new();
-            let mut updates = TaskUpdates::new();
-            for (rq_id, tasks) in &state.prefilled_tasks {
-                let rqv = state.resource_rq_map.get(*rq_id);
-                if remaining_time < rqv.min_time() {
-                    to_remove.push(*rq_id);
-                    for task in tasks {
-                        updates.push(WorkerTaskUpdate::RejectRequest {
-                            task_id: task.id,
-                            rv_id: None,
-                        });
-                    }
-                }
-            }
-            if !updates.is_empty() {
-                state
-                    .comm()
-                    .send_message_to_server(FromWorkerMessage::TaskUpdate(updates));
-                for rq_id in to_remove {
-                    state.prefilled_tasks.remove(&rq_id);
-                }
-            }
-        }
+        use std::future::Future;
+        let fut = crate::internal::worker::rpc::verif_retract_check_process(
+            Duration::from_secs(3600),
+            self.state_ref.clone(),
+        );
+        let mut fut = std::pin::pin!(tokio::task::unconstrained(fut));
+        let mut cx = std::task::Context::from_waker(std::task::Waker::noop());
+        let _ = fut.as_mut().poll(&mut cx);
     }
 
     /// What `cancel_running_tasks_on_worker_end` does (without waiting).
